@@ -39,6 +39,10 @@ def scenarios(tier):
         for f in (0, 1):
             out.append(("poller.wait", nth, f, 2, "writer.loop", 1, 2500))
     out.append(("poller.loop", 2, 0, 2, "writer.loop", 1, 2500))
+    # a slow poller: the writer dies while the poller is asleep between its request and its report
+    for f in (0, 1):
+        out.append(("writer.loop", 1, f, 2, "poller.send", 1, 1500))
+        out.append(("writer.loop", 0, f, 0, "poller.wait", 0, 1500))
     return out
 
 
